@@ -208,11 +208,9 @@ static void push_evt(m_mod_t *mod, evt_priv_t *evt) {
 }
 
 static int recv_events(m_ctx_t *c, int timeout) {
-    static uint64_t last_time_called;
-
     if (c->stats.recv_msgs == 0) {
         // First time entering: (re)start counter
-        fetch_ms(&last_time_called, NULL);
+        fetch_ms(&c->stats.last_time_called, NULL);
     }
 
     int err;
@@ -225,7 +223,7 @@ static int recv_events(m_ctx_t *c, int timeout) {
     // Store idling time stat
     uint64_t now;
     fetch_ms(&now, NULL);
-    c->stats.idle_time += now - last_time_called;
+    c->stats.idle_time += now - c->stats.last_time_called;
 
     for (int i = 0; i < nfds && !err; i++) {
         ev_src_t *p = poll_recv(&c->ppriv, i);
@@ -314,7 +312,7 @@ static int recv_events(m_ctx_t *c, int timeout) {
         }
     }
 
-    fetch_ms(&last_time_called, NULL);
+    fetch_ms(&c->stats.last_time_called, NULL);
     return recved;
 }
 
